@@ -110,19 +110,25 @@ func (e *SentinelEntry) Exit(exitOps ...ExitOption) {
 	}
 	e.exitCtl.Do(func() {
 		// Only the first Exit may record the error: afterwards the context is recycled.
-		// The entry is closed for SetError / SetPair before the exit handlers and statistic slots
-		// read the context: a TraceError from another goroutine either got in before (and is
-		// ordered before those reads by ctxMu) or is dropped, it never races with them.
 		e.ctxMu.Lock()
 		if options.err != nil {
 			ctx.SetError(options.err)
 		}
-		e.exited = true
 		e.ctxMu.Unlock()
+		// close closes the entry for SetError / SetPair: it is done before the statistic slots read the
+		// context, so that a TraceError from another goroutine either got in before (and is ordered
+		// before those reads by ctxMu) or is dropped - it never races with them. The exit handlers still
+		// run on the open entry: they may trace an error themselves.
+		closeEntry := func() {
+			e.ctxMu.Lock()
+			e.exited = true
+			e.ctxMu.Unlock()
+		}
 		defer func() {
 			if err := recover(); err != nil {
 				logging.Error(errors.Errorf("%+v", err), "Sentinel internal panic in SentinelEntry.Exit()")
 			}
+			closeEntry()
 			if e.sc != nil {
 				e.sc.RefurbishContext(ctx)
 			}
@@ -132,6 +138,7 @@ func (e *SentinelEntry) Exit(exitOps ...ExitOption) {
 				logging.Error(err, "Fail to execute exitHandler in SentinelEntry.Exit()", "resource", e.Resource().Name())
 			}
 		}
+		closeEntry()
 		if e.sc != nil {
 			e.sc.exit(ctx)
 		}
